@@ -829,6 +829,67 @@ def gen_CacheFacts():
     return "".join(out), {x.path: x.digest for x in (dk, ci, ch)}
 
 
+def gen_CrashFacts():
+    """Pins for the write protocols of C19 (no definitions are generated: the group fails closed when a statement the
+    effect-list model was written against is gone or reordered)."""
+    sf = Src(os.path.join(REPO, "file_utils/src/safe_file_creator.rs"))
+    sm = Src(os.path.join(REPO, "mdb_shard/src/shard_in_memory.rs"))
+    fh = Src(os.path.join(REPO, "mdb_shard/src/shard_file_handle.rs"))
+    sd = Src(os.path.join(REPO, "mdb_shard/src/session_directory.rs"))
+    ut = Src(os.path.join(REPO, "mdb_shard/src/utils.rs"))
+    lc = Src(os.path.join(REPO, "cas_client/src/local_client.rs"))
+    dk = Src(os.path.join(REPO, "chunk_cache/src/disk.rs"))
+    out = [PRELUDE]
+    cl = sf.fn_body("close")
+    for p_ in ["writer.flush()?; drop(writer);", "fs::rename(&self.temp_path, dest_path)?;"]:
+        if p_ not in cl:
+            raise TranslateError("SafeFileCreator::close changed: %r" % p_)
+    if not cl.index("writer.flush()?;") < cl.index("fs::rename(&self.temp_path, dest_path)?;"):
+        raise TranslateError("SafeFileCreator::close: rename no longer follows the flush")
+    tp = sf.fn_body("temp_file_path")
+    if 'format!(".{filename}.{random_hash}.tmp")' not in tp or 'format!(".{random_hash}.tmp")' not in tp:
+        raise TranslateError("SafeFileCreator temp name pattern changed")
+    wd = sm.fn_body("write_to_directory")
+    seq = ["let temp_file_name = directory.join(temp_shard_file_name());", "let shard_hash = self.write_to_temp_shard_file(&temp_file_name)?;",
+           "let full_file_name = directory.join(shard_file_name(&shard_hash));", "std::fs::rename(&temp_file_name, &full_file_name)?;"]
+    pos = [wd.find(x) for x in seq]
+    if -1 in pos or pos != sorted(pos):
+        raise TranslateError("write_to_directory: temp / hash / rename sequence changed")
+    wr = fh.fn_body("write_out_from_reader")
+    seq = ["let temp_file_name = target_directory.join(temp_shard_file_name());", "std::io::copy(reader, &mut hashed_write)?; hashed_write.flush()?;",
+           "let shard_hash = hashed_write.hash();", "std::fs::rename(&temp_file_name, &full_file_name)?;"]
+    pos = [wr.find(x) for x in seq]
+    if -1 in pos or pos != sorted(pos):
+        raise TranslateError("write_out_from_reader: temp / hash / rename sequence changed")
+    ut.pin('static ref MERKLE_DB_FILE_PATTERN: Regex = Regex::new(r"^(?P<hash>[0-9a-fA-F]{64})\\.mdb$").unwrap();', "final shard name pattern")
+    if 'format!("{}.mdb", hash.hex())' not in ut.fn_body("shard_file_name") or 'format!(".{uuid}.mdb_temp")' not in ut.fn_body("temp_shard_file_name"):
+        raise TranslateError("shard file names changed")
+    cs = sd.fn_body("consolidate_shards_in_directory")
+    for p_ in ["shards.sort_unstable_by_key(|si| si.last_modified_time);",
+               "if idx == shards.len() || shards[idx].shard.num_bytes() + current_size >= target_max_size { ub_idx = idx; break; } current_size += shards[idx].shard.num_bytes()",
+               "if ub_idx == cur_idx + 1 {", "finished_shard_hashes.insert(new_sfi.shard_hash); finished_shards.push(new_sfi);",
+               "if finished_shard_hashes.contains(shard_hash) {", "std::fs::remove_file(path)?;"]:
+        if p_ not in cs:
+            raise TranslateError("consolidate_shards_in_directory changed: %r" % p_)
+    if not cs.index("MDBShardFile::write_out_from_reader(session_directory") < cs.index("std::fs::remove_file(path)?;"):
+        raise TranslateError("consolidation: inputs are removed before the merged shard is written")
+    pt = lc.fn_body("put")
+    seq = ["let mut file = SafeFileCreator::new(&file_path)?;", "CasObject::serialize(", "file.close()?;"]
+    pos = [pt.find(x) for x in seq]
+    if -1 in pos or pos != sorted(pos):
+        raise TranslateError("LocalClient::put: write protocol changed")
+    if 'self.xorb_dir.join(format!("default.{hash:?}"))' not in lc.fn_body("get_path_for_entry"):
+        raise TranslateError("LocalClient xorb file name changed")
+    pi = dk.fn_body("put_impl")
+    seq = ["let mut fw = SafeFileCreator::new(path)?;", "fw.write_all(&header_buf)?; fw.write_all(data)?; fw.close()?;", "let mut state = self.state.lock()?;",
+           "for path in overlapping_item_paths { remove_file(&path)?; }"]
+    pos = [pi.find(x) for x in seq]
+    if -1 in pos or pos != sorted(pos):
+        raise TranslateError("DiskCache::put_impl: write / commit / delete order changed")
+    out.append("Definition write_protocols_pinned : bool := true.\n")
+    return "".join(out), {x.path: x.digest for x in (sf, sm, fh, sd, ut, lc, dk)}
+
+
 GROUPS = {
     "GearTable": gen_GearTable,
     "ChunkConsts": gen_ChunkConsts,
@@ -838,4 +899,5 @@ GROUPS = {
     "XorbLayout": gen_XorbLayout,
     "DedupFacts": gen_DedupFacts,
     "CacheFacts": gen_CacheFacts,
+    "CrashFacts": gen_CrashFacts,
 }
